@@ -1,8 +1,12 @@
 package props
 
 import (
+	"crypto/ed25519"
+	"crypto/sha256"
+	"encoding/hex"
 	"encoding/json"
 	"fmt"
+	"github.com/lidofinance/dc4bc/client/modules/keystore"
 	"net/http"
 	"os"
 	"path/filepath"
@@ -43,6 +47,10 @@ type c08Plan struct {
 	// DevKey = k > 0: participant k-1's machine announces another group key (same polynomial) in the first round: the
 	// round is cancelled, and who is recorded as failed with which error is part of the public state all must agree on
 	DevKey int `json:"dev_key,omitempty"`
+	// Foreign: another group runs a ceremony on the same board in which somebody uses the user name of our participant 0
+	// with a communication key of their own (user names are not unique across groups). Every node of ours sees the same
+	// messages and must hold the same state for that round - also the node that bears the name.
+	Foreign bool `json:"foreign,omitempty"`
 }
 
 func c08Gen(rt *rapid.T) c08Plan {
@@ -53,7 +61,8 @@ func c08Gen(rt *rapid.T) c08Plan {
 		Chunks: rapid.SliceOfN(rapid.IntRange(1, 9), 1, 12).Draw(rt, "chunks"), Restarts: rapid.SliceOfN(rapid.IntRange(0, 11), 0, 2).Draw(rt, "restarts"),
 		Ignore:   rapid.SliceOfN(rapid.IntRange(0, 1000), 0, 2).Draw(rt, "ignore"),
 		LateDays: rapid.SampledFrom([]int{0, 0, 0, 1, 8, 60}).Draw(rt, "lateDays"),
-		DevKey:   rapid.SampledFrom([]int{0, 0, 0, 1, 2, nt[0]}).Draw(rt, "devKey")}
+		DevKey:   rapid.SampledFrom([]int{0, 0, 0, 1, 2, nt[0]}).Draw(rt, "devKey"),
+		Foreign:  rapid.IntRange(0, 2).Draw(rt, "foreign") == 0}
 }
 
 // crossNodeView projects a node's dump of a round to what every node must agree on (time-free, without private deals).
@@ -210,12 +219,36 @@ func c08Run(t *testing.T, st *vstat.Stats, p c08Plan) (v *viol) {
 			}
 			rounds = append(rounds, rb)
 		}
+		foreignRound := ""
+		if p.Foreign {
+			dkgKey, _ := w.Machines[p.N-1].M.GetPubKey().MarshalBinary()
+			names := []string{w.Names[0], "dave of another group", "erin of another group"}
+			var keys []*keystore.KeyPair
+			var parts []*requests.SignatureProposalParticipantsEntry
+			for i, nm := range names {
+				kp := world.KeyPairFromSeed([]byte(fmt.Sprintf("foreign group key %d", i)))
+				keys = append(keys, kp)
+				parts = append(parts, &requests.SignatureProposalParticipantsEntry{Username: nm, PubKey: kp.Pub, DkgPubKey: dkgKey})
+			}
+			body, _ := json.Marshal(requests.SignatureProposalParticipantsListRequest{Participants: parts, SigningThreshold: 2, CreatedAt: time.Now()})
+			id := sha256.Sum256(body)
+			foreignRound = hex.EncodeToString(id[:])
+			w.Board.Inject(storage.Message{DkgRoundID: foreignRound, Event: "event_sig_proposal_init", Data: body, Signature: ed25519.Sign(keys[1].Priv, body), SenderAddr: names[1]})
+			for i, nm := range names {
+				data, _ := json.Marshal(map[string]any{"ParticipantId": i, "CreatedAt": time.Now()})
+				w.Board.Inject(storage.Message{DkgRoundID: foreignRound, Event: "event_sig_proposal_confirm_by_participant", Data: data, Signature: ed25519.Sign(keys[i].Priv, data), SenderAddr: nm})
+			}
+			rounds = append(rounds, foreignRound)
+		}
 		faults, rejected := p.Faults, 0
 		declined := false
 		deviated := false
 		answer := func(i int) {
 			ops, _ := w.Nodes[i].Operations()
 			for _, op := range ops {
+				if op.DKGIdentifier == foreignRound {
+					continue // the other group's business; our operator leaves it alone
+				}
 				if p.Decline && p.Second && i == 1 && op.DKGIdentifier == rounds[1] {
 					if !declined {
 						data, _ := json.Marshal(map[string]any{"ParticipantId": 1, "CreatedAt": time.Now()})
@@ -247,6 +280,9 @@ func c08Run(t *testing.T, st *vstat.Stats, p c08Plan) (v *viol) {
 		hasOps := func(i int) bool {
 			ops, _ := w.Nodes[i].Operations()
 			for _, op := range ops {
+				if op.DKGIdentifier == foreignRound {
+					continue
+				}
 				if p.Decline && p.Second && i == 1 && op.DKGIdentifier == rounds[1] && declined {
 					continue
 				}
@@ -544,6 +580,9 @@ func c08Run(t *testing.T, st *vstat.Stats, p c08Plan) (v *viol) {
 		st.Class(fmt.Sprintf("rounds=%d", len(rounds)))
 		if deviated {
 			st.Class("deviating-key-announcement")
+		}
+		if foreignRound != "" {
+			st.Class("foreign-round-with-a-colliding-user-name")
 		}
 		st.ClassN("rejected-messages-in-log", rejected)
 		if p.Decline && p.Second && declined {
